@@ -36,6 +36,7 @@ class Ctx:
         self.trusted = list(COMMON_TRUSTED)
         self.explanation = ""
         self.notes = []
+        self.sub = False   # sub-context used for adopting obligations: does not adopt itself (no mutual recursion)
 
     # -- recording ----------------------------------------------------------------------------------------------
     def touch(self, body, calls=0, states=0):
@@ -182,8 +183,9 @@ def finish(ctx, t0, seed, replay_only=None):
 def reuse(ctx, module, rule_prefixes, new_rule):
     """Run another property's module on the same program and adopt the obligations of the named rules under
     `new_rule` (shared clauses, e.g. C04.c = C03.a/b). Keys keep the original rule id so the instance stays diagnosable."""
-    sub = Ctx(ctx.prop, ctx.prog, ctx.tier, ctx.meta)
-    module.check(sub)
+    if ctx.sub:
+        return 10 ** 6
+    sub = sub_obligations(ctx, module)
     n = 0
     for o in sub.obligations:
         if any(o["rule"] == p or o["rule"].startswith(p + ".") or o["rule"].startswith(p) for p in rule_prefixes):
@@ -203,6 +205,7 @@ def sub_obligations(ctx, module):
     key = (id(ctx.prog), module.__name__)
     if key not in _SUB_CACHE:
         sub = Ctx(ctx.prop, ctx.prog, ctx.tier, ctx.meta)
+        sub.sub = True
         module.check(sub)
         _SUB_CACHE[key] = sub
     return _SUB_CACHE[key]
@@ -210,6 +213,8 @@ def sub_obligations(ctx, module):
 
 def adopt(ctx, module, pred, new_rule):
     """adopt the obligations of `module` selected by pred(obligation) under new_rule; returns the number adopted"""
+    if ctx.sub:
+        return 10 ** 6
     sub = sub_obligations(ctx, module)
     n = 0
     for o in sub.obligations:
